@@ -58,6 +58,14 @@ pub fn tls_init(
     Ok((server_id, ca.certificate))
 }
 
+/// Writes a file so that it is either not there or complete: the data goes to a temporary file that is then moved into place.
+/// If the tower dies while writing, an empty (or partial) key or certificate would otherwise be loaded at every later start.
+fn write_file(path: &Path, contents: String) -> std::io::Result<()> {
+    let tmp_path = path.with_extension("tmp");
+    std::fs::write(&tmp_path, contents)?;
+    std::fs::rename(tmp_path, path)
+}
+
 /// Generate a given identity
 fn generate_or_load_identity(
     name: &str,
@@ -74,7 +82,7 @@ fn generate_or_load_identity(
         let keypair = KeyPair::generate()?;
         #[cfg(feature = "verif")]
         teos_common::verif::crash_point_write("tls:write-key", &key_path);
-        std::fs::write(&key_path, keypair.serialize_pem())?;
+        write_file(&key_path, keypair.serialize_pem())?;
         log::debug!("Generating a new certificate for key {key_path:?} at {cert_path:?}",);
 
         // Configure the certificate we want.
@@ -91,7 +99,7 @@ fn generate_or_load_identity(
 
         #[cfg(feature = "verif")]
         teos_common::verif::crash_point_write("tls:write-certificate", &cert_path);
-        std::fs::write(
+        write_file(
             &cert_path,
             match parent {
                 None => params.self_signed(&keypair)?.pem(),
